@@ -107,3 +107,30 @@ func VerifC03InLiteralJSON() {
 	}
 	symAssert(verifScriptSafe(e), "in-literal(json): cannot end the script element")
 }
+
+// VerifC03InLiteralConcat: two Go values next to each other, or a value followed by static
+// text, inside one literal: each value is escaped on its own, so nothing a value ends with may
+// combine with what follows (e.g. "$" + "{").
+func VerifC03InLiteralConcat() {
+	qi := symChoose(3)
+	q := "'\"`"[qi]
+	a := symString("a", symParam("N"))
+	ea, err := ScriptContentInsideStringLiteral(a)
+	symAssert(err == nil, "no error")
+	var rest, restVal string
+	if symBool("second") {
+		b := symString("b", 1)
+		eb, err2 := ScriptContentInsideStringLiteral(b)
+		symAssert(err2 == nil, "no error")
+		rest, restVal = eb, b
+	} else {
+		rest, restVal = "{x}", "{x}" // static template text written by the author
+	}
+	symCover("concat")
+	lit := string([]byte{q}) + ea + rest + string([]byte{q})
+	val, why := verifJSLiteral(lit, q)
+	symAssert(why == "", "in-literal concatenation: still exactly one literal, no interpolation opened")
+	if why == "" {
+		symAssert(val == a+restVal, "in-literal concatenation: the literal's value is the concatenation of the values")
+	}
+}
